@@ -845,6 +845,16 @@ def check_gradient(case, ctx):
         ctx.label("fd:evaluated")
     else:
         ctx.label("fd:skipped-small-p")
+    if case["loss"] == "se":
+        # the same point handed over with an integer dtype (an integer-valued variable vector such as the identity gate's)
+        # is the same point: value and gradient agree with the float64 representation
+        vi = np.round(2.0 * var).astype(np.int64)
+        vf = vi.astype(np.float64)
+        with np.errstate(all="ignore"):
+            gi, gf = np.asarray(L.gradient(vi), dtype=float), np.asarray(L.gradient(vf), dtype=float)
+            li, lf = float(_scalar(L.value(vi))), float(_scalar(L.value(vf)))
+        ctx.close(gi, gf, 1e-12 * (1 + float(np.max(np.abs(gf), initial=0.0))), f"gradient_integer_dtype_point:{case['loss']}:{case['impl']}")
+        ctx.close(li, lf, 1e-12 * (1 + abs(lf)), f"value_integer_dtype_point:{case['loss']}:{case['impl']}")
     ctx.nontrivial((pr["weighted"] or pr["has_zero"] or pr["outside"]) and float(np.max(np.abs(ref["grad"]))) > 1e-9)
 
 
